@@ -326,6 +326,9 @@ func Generate(r *rng.R, tier string, n int, emit func(*common.Case)) {
 		var inp Input
 		if mode == "live" {
 			inp = genLive(cr)
+			if tier != "quick" {
+				inp.Churn = 25
+			}
 		} else {
 			inp = genInput(cr, mode)
 			if mode == "status" {
